@@ -9,13 +9,19 @@
 //	                                                 auth scope HeartBeats iff SCOPE=1, an HTTP server plugin on NewProxy)
 //	                                                 + scripted raw client: login, then items
 //	                                                   v<ms>/i<ms>  ping with valid / wrong key after ms
+//	                                                   j<ms>  ping with a valid key that the Ping plugin rejects
+//	                                                   c<ms>  CloseProxy of a name nobody registered
+//	                                                   e<ms>  NewProxy of an unsupported type (answered with an error)
+//	                                                   h<ms>  NatHoleReport for an unknown session
 //	                                                   n<ms>/<ph>/<hold>  NewProxy (tcp, own remote port) after ms; its
 //	                                                      registration is held for <hold> ms at phase p (server plugin),
 //	                                                      c / r / a (gates reg.checked / reg.ran / reg.added)
 //	                                                   x<ms>  cut the connection after ms (last item)
 //	                                                 then silence.  After the session ended (and the held registration
 //	                                                 returned) + 600 ms a fresh session registers the same names/ports.
-//	wdwait ID                                        => closed|cut C sent=v:t,i:t,.. pok=N perr=M px=j:resp:rereg,.. | open H …
+//	wdwait ID                                        => closed|cut C sent=v:t,i:t,c:t,.. pok=N perr=M px=j:resp:rereg,.. | open H …
+//	                                                 (sent: every message written, kind:µs; n = a NewProxy, stamped when its
+//	                                                 hold ends)
 //	cwstart ID I T SET SCRIPT                        real frpc (client.NewService with proxy set SET, heartbeatInterval=I,
 //	                                                 heartbeatTimeout=T, tcpMux off) against a scripted raw server; SCRIPT
 //	                                                 items: p<k> answer k pings then fall silent | b<k> answer k pings, then
@@ -27,13 +33,16 @@
 //	                                                 A p/b/c item may carry a work-connection schedule (ms after the login):
 //	                                                 /q<ms> send ReqWorkConn | /s<ms> send StartWorkConn on the oldest idle
 //	                                                 work connection (a user connected) | /z<ms> close the oldest idle work
-//	                                                 connection.  Work connections nobody uses stay idle in the scripted
+//	                                                 connection | /w<ms> send NewProxyResp for a name the client never
+//	                                                 announced | /h<ms> send NatHoleResp for an unknown transaction.
+//	                                                 Work connections nobody uses stay idle in the scripted
 //	                                                 server's pool until the control connection ends.
 //	cwwait ID                                        => per connection: kind:gap:close:pinggaps:regs;regs… (ms; regs = the
 //	                                                 proxies registered on this connection 350 ms after the login and
 //	                                                 after each reload, ~ = connection ended before); with a work-connection
 //	                                                 schedule a 6th field N/END/ev;ev… : N NewWorkConn arrived, the connection
-//	                                                 ended END ms after the login, ev = q<t> | s<t>.<w> | z<t>.<w> as executed
+//	                                                 ended END ms after the login, ev = q<t> | s<t>.<w> | z<t>.<w> | w<t> | h<t>
+//	                                                 as executed
 //
 // All durations are integer ns (ms for the watchdog scenarios); nothing here is compared literally:
 // the Lean side checks that every observed delay / closure time lies in the model's interval.
@@ -69,6 +78,9 @@ import (
 )
 
 const waitToken = "verif-c14-token"
+
+// pings whose Timestamp is below this are rejected by the scripted Ping plugin (their key is valid)
+const wdRejectStampMax = 1000000
 
 type waitEngine struct {
 	mgr   wait.BackoffManager
@@ -239,10 +251,21 @@ func wdPlugin() string {
 			var req struct {
 				Content struct {
 					ProxyName string `json:"proxy_name"`
+					Timestamp int64  `json:"timestamp"`
 				} `json:"content"`
 			}
 			body, _ := io.ReadAll(r.Body)
 			_ = json.Unmarshal(body, &req)
+			if r.URL.Query().Get("op") == "Ping" {
+				// a ping stamped with a small number is one the scripted client wants rejected
+				rw.Header().Set("Content-Type", "application/json")
+				if req.Content.Timestamp > 0 && req.Content.Timestamp < wdRejectStampMax {
+					_, _ = rw.Write([]byte(`{"reject":true,"reject_reason":"scripted rejection"}`))
+				} else {
+					_, _ = rw.Write([]byte(`{"reject":false,"unchange":true}`))
+				}
+				return
+			}
 			if d := wdTakeHold(req.Content.ProxyName, "plug"); d > 0 {
 				time.Sleep(d)
 			}
@@ -299,7 +322,7 @@ func (w *waitEngine) serverFor(T int, scope bool) int {
 		f := false
 		cfg.Transport.TCPMux = &f
 		cfg.Transport.HeartbeatTimeout = int64(T)
-		cfg.HTTPPlugins = []v1.HTTPPluginOptions{{Name: "verif-c14", Addr: plug, Path: "/h", Ops: []string{"NewProxy"}}}
+		cfg.HTTPPlugins = []v1.HTTPPluginOptions{{Name: "verif-c14", Addr: plug, Path: "/h", Ops: []string{"NewProxy", "Ping"}}}
 		cfg.Complete()
 		svr, err := server.NewService(cfg)
 		if err != nil {
@@ -314,7 +337,8 @@ func (w *waitEngine) serverFor(T int, scope bool) int {
 }
 
 type wdItem struct {
-	kind  byte // 'v' valid ping, 'i' wrong-key ping, 'n' NewProxy, 'x' cut
+	kind  byte // 'v' valid ping, 'i' wrong-key ping, 'j' plugin-rejected ping, 'n' NewProxy, 'c' CloseProxy (unknown name),
+	// 'e' NewProxy (unsupported type), 'h' NatHoleReport (unknown session), 'x' cut
 	ms    int
 	phase byte // n: 'p' plugin, 'c' reg.checked, 'r' reg.ran, 'a' reg.added
 	hold  int  // n: ms the registration is held at `phase`
@@ -461,11 +485,31 @@ loop:
 				break loop
 			}
 			pxs = append(pxs, px)
+			sent = append(sent, fmt.Sprintf("n:%d", (time.Since(t0) + time.Duration(it.hold)*time.Millisecond).Microseconds()))
+		case 'c', 'e', 'h':
+			// other traffic of a peer that is otherwise silent: none of it is a heartbeat
+			var m msg.Message
+			switch it.kind {
+			case 'c':
+				m = &msg.CloseProxy{ProxyName: fmt.Sprintf("%s-nobody-%d", id, len(sent))}
+			case 'e':
+				m = &msg.NewProxy{ProxyName: fmt.Sprintf("%s-bogus-%d", id, len(sent)), ProxyType: "nosuchtype"}
+			default:
+				m = &msg.NatHoleReport{Sid: fmt.Sprintf("%s-nosid-%d", id, len(sent)), Success: false}
+			}
+			at := time.Since(t0)
+			if err := msg.WriteMsg(rw, m); err != nil {
+				break loop
+			}
+			sent = append(sent, fmt.Sprintf("%c:%d", it.kind, at.Microseconds()))
 		default:
 			p := &msg.Ping{}
 			ts := time.Now().Unix()
+			if it.kind == 'j' {
+				ts = int64(1 + len(sent)) // the scripted Ping plugin rejects small stamps; the key below matches the stamp
+			}
 			p.Timestamp = ts
-			if it.kind == 'v' {
+			if it.kind == 'v' || it.kind == 'j' {
 				p.PrivilegeKey = util.GetAuthKey(waitToken, ts)
 			} else {
 				p.PrivilegeKey = "bad" + util.GetAuthKey(waitToken, ts)
@@ -474,14 +518,10 @@ loop:
 			if err := msg.WriteMsg(rw, p); err != nil {
 				break loop
 			}
-			k := "i"
-			if it.kind == 'v' {
-				k = "v"
-			}
-			if it.kind == 'v' || !scope {
+			if it.kind == 'v' || (it.kind == 'i' && !scope) {
 				lastValid = at
 			}
-			sent = append(sent, fmt.Sprintf("%s:%d", k, at.Microseconds()))
+			sent = append(sent, fmt.Sprintf("%c:%d", it.kind, at.Microseconds()))
 		}
 	}
 	horizon := lastValid + time.Duration(T)*time.Second + 2500*time.Millisecond
@@ -853,6 +893,14 @@ func runCw(I, T int, set0 string, script []string) string {
 						if msg.WriteMsg(rw, &msg.ReqWorkConn{}) == nil {
 							workEvs = append(workEvs, fmt.Sprintf("q%d", time.Since(tLogin).Milliseconds()))
 						}
+					case 'w':
+						if msg.WriteMsg(rw, &msg.NewProxyResp{ProxyName: fmt.Sprintf("nobody-%d", len(workEvs)), RemoteAddr: ":1"}) == nil {
+							workEvs = append(workEvs, fmt.Sprintf("w%d", time.Since(tLogin).Milliseconds()))
+						}
+					case 'h':
+						if msg.WriteMsg(rw, &msg.NatHoleResp{TransactionID: fmt.Sprintf("nobody-%d", len(workEvs)), Sid: "nosid"}) == nil {
+							workEvs = append(workEvs, fmt.Sprintf("h%d", time.Since(tLogin).Milliseconds()))
+						}
 					case 's', 'z':
 						if len(idle) > 0 {
 							wc := idle[0]
@@ -920,9 +968,11 @@ func runCw(I, T int, set0 string, script []string) string {
 
 var quietOnce sync.Once
 
+func quietFrp() { frplog.Logger = frplog.Logger.WithOptions(golog.WithOutput(io.Discard)) }
+
 func (w *waitEngine) exec(tok []string) string {
 	// the harness' stdout/stderr carry the trace: frp's own logging must not leak into it
-	quietOnce.Do(func() { frplog.Logger = frplog.Logger.WithOptions(golog.WithOutput(io.Discard)) })
+	quietOnce.Do(quietFrp)
 	switch tok[0] {
 	case "reset":
 		w.mgr = nil
@@ -1074,10 +1124,10 @@ func genWait(rng *rand.Rand, n int, emit func(string)) {
 		for j := 0; j < k; j++ {
 			kind := "v"
 			if rng.Intn(3) == 0 {
-				kind = "i"
+				kind = []string{"i", "i", "j", "c"}[rng.Intn(4)]
 			}
 			gap := 50 + rng.Intn(T*1000*7/10)
-			if kind == "i" {
+			if kind != "v" {
 				gap = 30 + rng.Intn(300)
 			}
 			if rng.Intn(12) == 0 {
@@ -1111,10 +1161,48 @@ func genWait(rng *rand.Rand, n int, emit func(string)) {
 			items = append(items, fmt.Sprintf("n%d/p/0", 20+rng.Intn(150)), fmt.Sprintf("x%d", 100+rng.Intn(400)))
 			held = true
 		}
-		// a tail of invalid pings during the final silence (must not keep the session alive when scope is on)
-		if !held && rng.Intn(2) == 0 {
+		// what the peer still sends after its last valid heartbeat must not keep the session alive:
+		if !held && i%4 == 1 {
+			// a BUSY dead peer: for longer than the detection bound (timeout + checker period + slack) it keeps
+			// sending other traffic at a spacing below the timeout -- rejected pings (wrong key / refused by the
+			// Ping plugin), CloseProxy of names nobody registered, NewProxy that fail, NewProxy that succeed,
+			// NatHoleReport -- and no valid heartbeat.  Only a verified Ping may move the clock.
+			if (i/4)%3 == 2 {
+				T = 3
+			}
+			var kinds string
+			switch (i / 4) % 4 {
+			case 0:
+				kinds = "c"
+			case 1:
+				kinds = "ji"
+			case 2:
+				kinds = "ehn"
+			default:
+				kinds = "cjiehn"
+			}
+			regs := 0
+			for total := 0; total < T*1000+1700; {
+				gap := 150 + rng.Intn(T*1000*6/10-100)
+				total += gap
+				k := kinds[rng.Intn(len(kinds))]
+				if k == 'i' && !scope {
+					k = 'j' // without the HeartBeats scope a wrong key is not looked at: only the plugin rejects
+				}
+				if k == 'n' && regs >= 2 {
+					k = 'e'
+				}
+				if k == 'n' {
+					regs++
+					items = append(items, fmt.Sprintf("n%d/p/0", gap))
+				} else {
+					items = append(items, fmt.Sprintf("%c%d", k, gap))
+				}
+			}
+		} else if !held && rng.Intn(2) == 0 {
+			// a short tail of invalid pings during the final silence
 			for j := 0; j < 2+rng.Intn(4); j++ {
-				items = append(items, fmt.Sprintf("i%d", 200+rng.Intn(400)))
+				items = append(items, fmt.Sprintf("%c%d", "ij"[rng.Intn(2)], 200+rng.Intn(400)))
 			}
 		}
 		sc := strings.Join(items, ",")
@@ -1197,7 +1285,7 @@ func genWait(rng *rand.Rand, n int, emit func(string)) {
 	// transport.poolCount > 0 and after every user connection), uses / closes some of them at any moment and lets
 	// the others sit idle in its pool, while it keeps answering pings -- for longer than the detection bound
 	// (heartbeatTimeout + checker period + slack), so that a client that stops reading Pongs would be seen closing
-	nwk := 2 + n/1700
+	nwk := 3 + n/1700
 	for i := 0; i < nwk; i++ {
 		T := 2
 		if rng.Intn(4) == 0 {
@@ -1212,7 +1300,18 @@ func genWait(rng *rand.Rand, n int, emit func(string)) {
 			}
 			return w
 		}
-		switch i % 4 {
+		switch i % 5 {
+		case 4:
+			// a BUSY silent server: it answers k pings and then no more, but for longer than the detection bound it
+			// keeps sending other control messages at a spacing below the timeout -- ReqWorkConn (user connections
+			// still arrive at its ports), NewProxyResp, NatHoleResp.  Only a Pong without error may move the clock.
+			k := rng.Intn(3)
+			kinds := []string{"q", "qw", "wh", "qwh"}[(i/5)%4]
+			w := ""
+			for at := 100 + rng.Intn(200); at < k*1000+T*1000+1900; at += 250 + rng.Intn(T*1000*5/10) {
+				w += fmt.Sprintf("/%c%d", kinds[rng.Intn(len(kinds))], at)
+			}
+			items = []string{fmt.Sprintf("p%d%s", k, w), fmt.Sprintf("c%d", 500+rng.Intn(300))}
 		case 0: // the pool is filled on login and nobody connects
 			at := 20 + rng.Intn(250)
 			items = []string{fmt.Sprintf("c%d%s", at+idle, burst(at, 1+rng.Intn(3)))}
